@@ -48,12 +48,36 @@ RunsOk(cfg, q, w, msgs, k, o, i) ==
                ELSE IF \A st \in E : st.free THEN [ok |-> TRUE, free |-> TRUE]
                ELSE RunsOk(cfg, (CHOOSE st \in E : ~st.free).q, w, msgs, k + 1, o, j + 1)
 
+\* C07: what must be identical for every delivery schedule of one stream - the handlers
+\* invoked (with their arguments), the errors reported, the response bytes written
+RECURSIVE Pick(_, _, _)
+Pick(o, i, es) == IF i > Len(o) THEN <<>>
+                  ELSE (IF o[i].e \in es THEN <<o[i]>> ELSE <<>>) \o Pick(o, i + 1, es)
+RECURSIVE CatB(_)
+CatB(es) == IF es = <<>> THEN <<>> ELSE es[1].b \o CatB(Tail(es))
+Proj(o, oute) ==
+  LET cs == Pick(o, 1, {"call"})
+      es == Pick(o, 1, {"err"})
+  IN [calls |-> [i \in 1..Len(cs) |-> <<cs[i].id, cs[i].args>>],
+      errs  |-> [i \in 1..Len(es) |-> <<es[i].n, es[i].txt>>],
+      out   |-> CatB(Pick(o, 1, {oute}))]
+ProcSetJudge(r) ==
+  LET vs == r.obs.v
+      js == [k \in 1..Len(vs) |->
+               LET E == ProcEnd(CfgOf(r.iface), r.N, vs[k]) IN
+               [ok |-> ProcMonitors(vs[k]) /\ EndOk(r.N, vs[k]) /\ E # {}, free |-> \A st \in E : st.free]]
+      ref == Proj(vs[1], "write")
+      same == \A k \in 2..Len(vs) : Proj(vs[k], "write") = ref
+      asruns == "runs" \in DOMAIN r.obs => Proj(r.obs.runs, "out") = ref
+  IN [ok |-> same /\ asruns /\ \A k \in 1..Len(vs) : js[k].ok, free |-> \E k \in 1..Len(vs) : js[k].free]
+
 \* [ok, free] of one line
 Judge(r) ==
   CASE r.kind = "run" ->
          LET E == RunEnd(CfgOf(r.iface), <<>>, Room(r.w), r.in, r.obs) IN
          [ok |-> RunMonitors(r.in, r.w, r.obs) /\ E # {}, free |-> \A st \in E : st.free]
     [] r.kind = "runs" -> RunsOk(CfgOf(r.iface), <<>>, r.w, r.msgs, 1, r.obs, 1)
+    [] r.kind = "procset" -> ProcSetJudge(r)
     [] r.kind = "process" ->
          LET E == ProcEnd(CfgOf(r.iface), r.N, r.obs) IN
          [ok |-> ProcMonitors(r.obs) /\ EndOk(r.N, r.obs) /\ E # {}, free |-> \A st \in E : st.free]
